@@ -141,6 +141,7 @@ def check_shape(rep, rng, shape, g, inner_types, inners, mapped):
         if data2 is not None and data2 != data:
             rep.fail(signature(shape, mapped, mode, 'typed-vs-preencoded'),
                      'typed inner value gives %s, the same value pre-encoded gives %s' % (data.hex()[:120], data2.hex()[:120]), rp)
+        model_correspondence(rep, shape, g, inner_types, inners, mapped, mode, data, raws, rp)
         for resolve in (True, False):
             kw = {'decodeOpenTypes': True} if resolve else {}
             try:
@@ -191,6 +192,56 @@ def check_shape(rep, rng, shape, g, inner_types, inners, mapped):
                         break
 
 
+_DRV = [None]
+
+
+def model_correspondence(rep, shape, g, inner_types, inners, mapped, mode, data, raws, rp):
+    """the Lean model of open types (lean/Asn1/OpenType.lean: encodeOpen / decodeOpen, about which Props.C18 proves the
+    round trip) against the code: same octets for the record with a typed inner value; the field the model's decoder
+    captures is the inner encoding; the model's second pass returns the inner value.  SEQUENCE container, single ANY
+    field (the part the model covers)."""
+    if shape.container != 'seq' or shape.multi or shape.optional or _DRV[0] is None:
+        return
+    from harness import sigs
+    t, w = inner_types[0], inners[0]
+    if sigs.has_constructed_default(t) or sigs.has_real_default(t) or 'any' in gen.ty_sexp(t):
+        return
+    drv = _DRV[0]
+    cdc, dm = mode
+    id_ty = 'int' if shape.id_kind == 'int' else 'oid'
+    gs = '(i %d)' % g if shape.id_kind == 'int' else '(oid %s)' % ' '.join(str(x) for x in g)
+    at = '(none)' if not shape.tagging else '(%s c %d)' % (shape.tagging[0], shape.tagging[1])
+    ts, ws = gen.ty_sexp(t), gen.val_sexp(w)
+    ans = drv.ask('OPENENC %s %d 0 %s %s %s %s %s' % (cdc, 1 if dm else 0, id_ty, at, gs, ts, ws))
+    rep.corr_checked += 1
+    if ans != 'ok ' + data.hex():
+        rep.disagree('OPENENC', rp, ans[:200], data.hex()[:200])
+        return
+    for resolve in (0, 1):
+        ans = drv.ask('OPENDEC %s %s %s %d %s %s' % (cdc, id_ty, at, resolve, (data + b'\x05\x00').hex(), ts if mapped else '-'))
+        rep.corr_checked += 1
+        p = ans.split(' ')
+        if p[0] != 'ok':
+            rep.disagree('OPENDEC', dict(rp, resolve=resolve), ans[:200], 'the code decodes %s' % data.hex()[:100])
+            continue
+        # ok <g> <raw> <inner|-> <rest> : g and inner are s-expressions (may contain spaces) - parse from both ends
+        sx = gen.parse_sexps(ans[3:])
+        gm, rawm, innerm, restm = sx[0], sx[1], sx[2], sx[3]
+        if rawm != raws[0].hex() or restm != '0500':
+            rep.disagree('OPENDEC', dict(rp, resolve=resolve), 'raw %s rest %s' % (str(rawm)[:100], restm), 'raw %s rest 0500' % raws[0].hex()[:100])
+            continue
+        if resolve and mapped:
+            try:
+                wm = gen.val_of_sexp(innerm)
+                same = gen.val_equiv(t, wm, w)
+            except Exception:  # noqa
+                same = False
+            if not same:
+                rep.disagree('OPENDEC', dict(rp, resolve=resolve), 'inner %s' % str(innerm)[:150], 'inner %s' % ws[:150])
+        elif innerm != '-':
+            rep.disagree('OPENDEC', dict(rp, resolve=resolve), 'inner %s' % str(innerm)[:100], 'inner left unresolved')
+
+
 def any_match(items, t, w):
     for it in items:
         try:
@@ -235,6 +286,7 @@ def run(rep, tier, seed):
                 'non-trivial = constructed inner type or tagged ANY field')
     rep.assumptions = ['SET containers are exercised with tagged ANY fields only when the ANY would otherwise be ambiguous']
     g0 = gen.Gen(rng, max_depth=1, allow_any=False)
+    _DRV[0] = common.Driver()
     for i in range(n):
         container = rng.choice(['seq', 'seq', 'set'])
         id_kind = rng.choice(['int', 'oid'])
